@@ -1,7 +1,7 @@
 (* Extraction of the executable models to OCaml.  ExtrOcamlBasic only; no Extract Constant /
    Extract Inductive of our own: nat, N, Z, positive, ascii stay the extracted inductives. *)
 Require Import ExtrOcamlBasic.
-Require Import Bytes Base64Model Rfc4648 NumParse Restartable TablesGen ParserModel ParserInst HandlerModel RouterModel QueueModel PromiseConc PromiseConcLemmas PromiseModel NetModel MimeModel CookieModel HeaderModel TransportModel WireModel LifecycleModel ClientModel DispatchModel ShutdownModel.
+Require Import Bytes Base64Model Rfc4648 NumParse Restartable TablesGen ParserModel ParserInst HandlerModel RouterModel QueueModel PromiseConc PromiseConcLemmas PromiseModel NetModel MimeModel CookieModel HeaderModel DateModel TransportModel WireModel LifecycleModel ClientModel DispatchModel ShutdownModel.
 Extraction "model.ml"
   Bytes.n2b Bytes.b2n
   Base64Model.encode Base64Model.decode Base64Model.set_basic Base64Model.get_basic
@@ -19,6 +19,7 @@ Extraction "model.ml"
   CookieModel.from_raw CookieModel.write_cookie CookieModel.jar_add_from_raw
   HeaderModel.conn_parse HeaderModel.conn_write HeaderModel.enc_parse HeaderModel.enc_write HeaderModel.expect_parse HeaderModel.expect_write
   HeaderModel.cl_parse HeaderModel.cl_write HeaderModel.cc_write HeaderModel.cc_parse_top HeaderModel.host_parse HeaderModel.host_write HeaderModel.hdr_lookup HeaderModel.server_parse HeaderModel.server_write
+  DateModel.date_write DateModel.date_parse
   TransportModel.events TransportModel.issue TransportModel.on_ready TransportModel.drain_event
   WireModel.put_on_wire WireModel.render_stream WireModel.write_request WireModel.dechunk
   LifecycleModel.lrun LifecycleModel.qrun LifecycleModel.q_stale LifecycleModel.frun
